@@ -26,6 +26,7 @@ TRANSLATORS = [
     ('gen_lexpins', ['LexPins.v']),
     ('gen_passes', ['PassTab.v']),
     ('gen_cli', ['CliTab.v']),
+    ('gen_srcpins', None),    # one Pin_<component>.v per component; a broken pin breaks only its own file
 ]
 
 
@@ -36,9 +37,12 @@ def main():
     for mod, outs in TRANSLATORS:
         if only and mod not in only:
             continue
+        if outs is None:
+            import gen_srcpins
+            outs = ['Pin_%s.v' % c for c in gen_srcpins.COMPONENTS]
         try:
             m = importlib.import_module(mod)
-            files, side, *_ = m.generate()
+            files, side, *more = m.generate()
             changed = []
             for name, content in files.items():
                 if write_if_changed(os.path.join(GEN, name), content):
@@ -46,6 +50,10 @@ def main():
             with open(os.path.join(GEN, mod + '.side.json'), 'w') as f:
                 json.dump(side, f, indent=1, default=str)
             status[mod] = {'ok': True, 'changed': changed, 'files': list(files)}
+            if mod == 'gen_srcpins' and more and more[0]:
+                # per-file failures (gen_srcpins): the files of the broken components do not compile
+                status[mod] = {'ok': False, 'error': 'source pins broken: ' + json.dumps(more[0]), 'where': None,
+                               'files': ['Pin_%s.v' % c for c in more[0]], 'changed': changed}
         except Unsupported as e:
             for name in outs:
                 write_if_changed(os.path.join(GEN, name),
